@@ -9,6 +9,7 @@
 #include "colvarmodule.h"
 #include "colvarproxy.h"
 #include "colvarbias.h"
+#include "colvar.h"
 #include "colvarproxy_stub.h"
 #include "colvarproxy_stub.cpp"
 static double usable(double x, double lo, double hi, double dflt) { if (!(x == x) || std::fabs(x) > 1.0e6) return dflt; double a = std::fabs(x); double r = lo + std::fmod(a, hi - lo); return (r > lo) ? r : dflt; }
@@ -25,10 +26,39 @@ static sample eval(colvarproxy_stub *proxy, double x, long step) {
   proxy->colvars->it = step; proxy->colvars->calc();
   sample s; s.E = proxy->colvars->biases[0]->get_energy(); s.F = (*(proxy->modify_atom_applied_forces()))[1].x; return s;
 }
+// harmonic restraint on a PERIODIC variable (dihedral, period 360): centre near the -180/180 seam, positions on both sides of it.  The energy must use
+// the shortest-image difference, and the force applied on the variable must be minus its derivative.
+static int harmonic_periodic(double k, double w, double shift) {
+  double const c = -180.0 + shift * 0.2;        // centre within 10 degrees of the seam
+  std::ostringstream conf; conf.precision(17);
+  conf << "colvarsTrajFrequency 0\ncolvarsRestartFrequency 0\ncolvar {\n  name phi\n  width " << w << "\n  outputAppliedForce on\n  dihedral {\n    group1 { atomNumbers 1 }\n    group2 { atomNumbers 2 }\n    group3 { atomNumbers 3 }\n    group4 { atomNumbers 4 }\n  }\n}\n"
+       << "harmonic {\n  name h\n  colvars phi\n  forceConstant " << k << "\n  centers " << c << "\n}\n";
+  colvarproxy_stub *proxy = new colvarproxy_stub(); proxy->set_unit_system("real", false); proxy->colvars->setup_input(); proxy->colvars->setup_output();
+  for (int ai = 0; ai < 4; ai++) proxy->init_atom(ai + 1);
+  if (proxy->colvars->read_config_string(conf.str())) { std::cout << "REPLAY: configuration rejected\n" << conf.str(); delete proxy; return 3; }
+  double const angles[4] = {170.0, -175.0, 178.0, -160.0}; int bad = 0; std::ostringstream first;
+  for (int n = 0; n < 4; n++) {
+    double const a = angles[n] * 3.14159265358979323846 / 180.0;
+    std::vector<cvm::atom_pos> &pos = *(proxy->modify_atom_positions());
+    pos[0] = cvm::atom_pos(1.0, 0.0, 0.0); pos[1] = cvm::atom_pos(0.0, 0.0, 0.0); pos[2] = cvm::atom_pos(0.0, 0.0, 1.0); pos[3] = cvm::atom_pos(std::cos(a), std::sin(a), 1.0);
+    proxy->colvars->it = n; proxy->colvars->calc();
+    colvar *cv = colvarmodule::colvar_by_name("phi"); double const x = cv->value().real_value;
+    double d = x - c; d -= 360.0 * std::floor(d / 360.0 + 0.5);
+    double const E = 0.5 * k * d * d / (w * w), F = -k * d / (w * w);
+    double const Er = proxy->colvars->biases[0]->get_energy(), Fr = cv->applied_force().real_value;
+    if (std::fabs(Er - E) > 1e-9 * (1.0 + std::fabs(E)) || std::fabs(Fr - F) > 1e-9 * (1.0 + std::fabs(F))) { bad++;
+      if (first.str().empty()) first << "dihedral " << x << ", centre " << c << " (shortest difference " << d << "): energy " << Er << ", closed form over the shortest image " << E << "; force on the variable " << Fr << ", expected " << F; }
+  }
+  delete proxy;
+  if (bad) REPLAY_FAIL("harmonic restraint on a periodic variable, forceConstant " << k << ", width " << w << ": " << bad << " of 4 positions deviate; " << first.str());
+  REPLAY_PASS("harmonic restraint on a dihedral across the +-180 seam: energy and force follow the shortest-image difference at 4 positions");
+}
 int main(int argc, char **argv) {
   if (argc < 3) return 2; std::string task(argv[1]); replay_vals v; if (!v.load(argv[2])) return 2;
   double const k = usable(v.d("e_force_k"), 0.5, 9.5, 2.5), w = usable(v.d("e_width"), 0.3, 2.3, 0.7);
   bool const walls = task.find("walls") == 0;
+  if (!walls && task.find("harmonic") != 0) { std::cout << "REPLAY: no native driver for task " << task << "\n"; return 3; }
+  if (!walls) return harmonic_periodic(k, w, usable(v.d("e_center"), 0.0, 50.0, 13.0));
   std::ostringstream conf; conf.precision(17);
   conf << "colvarsTrajFrequency 0\ncolvarsRestartFrequency 0\ncolvar {\n  name d\n  width " << w << "\n  distance {\n    group1 { atomNumbers 1 }\n    group2 { atomNumbers 2 }\n  }\n}\n";
   double c = 0.0, lw = 0.0, uw = 0.0, kl = 0.0, ku = 0.0;
